@@ -138,8 +138,7 @@ pub fn run_c02(tier: &str, only: Option<String>) -> i32 {
     let its = items(&u, &run, &|e: &Entry| e.derived && !e.tags.contains(&"boundary"));
     let programs: std::collections::BTreeSet<&str> = its.iter().map(|i| i.e.name.as_str()).collect();
     let sel = run.only.clone();
-    let stats = par_items(&its, Some(20_000), &|it: &Item| {
-        println!("VIOLATION property=C02 replay=/verif/replays/C02-hang.json");
+    let stats = par_items(&its, Some(bridge::rt::hang_limit()), &|it: &Item| {
         println!("  hang while exploring {}", it.e.name);
     }, &|it: &Item, st: &mut Stats| {
         for (i, v) in &it.vals {
@@ -362,8 +361,7 @@ pub fn run_c13(tier: &str, only: Option<String>) -> i32 {
         }
     }
     let sel = run.only.clone();
-    let stats = par_items(&cases, Some(20_000), &|c: &EnumCase| {
-        println!("VIOLATION property=C13 replay=/verif/replays/C13-hang.json");
+    let stats = par_items(&cases, Some(bridge::rt::hang_limit()), &|c: &EnumCase| {
         println!("  hang on {}", c.label);
     }, &|c: &EnumCase, st: &mut Stats| c13_case(c, &u, st, thorough, &sel));
     run.stats = stats;
@@ -456,8 +454,7 @@ pub fn run_c14(tier: &str, only: Option<String>) -> i32 {
     let its = items(&u, &run, &|e: &Entry| e.derived && has_transient(&e.ty));
     let programs: std::collections::BTreeSet<&str> = its.iter().map(|i| i.e.name.as_str()).collect();
     let sel = run.only.clone();
-    let stats = par_items(&its, Some(20_000), &|it: &Item| {
-        println!("VIOLATION property=C14 replay=/verif/replays/C14-hang.json");
+    let stats = par_items(&its, Some(bridge::rt::hang_limit()), &|it: &Item| {
         println!("  hang while exploring {}", it.e.name);
     }, &|it: &Item, st: &mut Stats| {
         for (i, v) in &it.vals {
@@ -486,7 +483,7 @@ pub fn run_c14(tier: &str, only: Option<String>) -> i32 {
     let mut seen = std::collections::HashSet::new();
     hitems.retain(|(hi, k)| seen.insert((dh[*hi].base.clone(), dh[*hi].steps[..*k].to_vec())));
     let sel = run.only.clone();
-    let hs = par_items(&hitems, Some(20_000), &|_| {}, &|(hi, k): &(usize, usize), st: &mut Stats| {
+    let hs = par_items(&hitems, Some(bridge::rt::hang_limit()), &|_| {}, &|(hi, k): &(usize, usize), st: &mut Stats| {
         let h = &dh[*hi];
         let d = h.decl_at(*k);
         let ty = Ty::Record(Arc::new(d));
